@@ -421,7 +421,7 @@ class Ctx:
         cov.update(self.extra)
         ev = {
             "property_id": self.pid, "tier": self.tier, "seed": self.seed, "level": "proof",
-            "coverage": cov, "assumptions": self.assumptions, "wall_s": round(wall, 2),
+            "coverage": cov, "assumptions": self.assumptions or assumptions_for(self.pid), "wall_s": round(wall, 2),
             "violations": vcount,
         }
         os.makedirs(os.path.join(VERIF, "evidence"), exist_ok=True)
@@ -433,11 +433,48 @@ class Ctx:
         return exit_code
 
 
+# premises of the closed theorems (Section hypotheses after the sections close) and the named
+# environment assumptions of each property, printed into the evidence
+HYP = {
+ "HashLen": "HashLen: the hash returns 64 bytes (proved for the Coq SHA-512, C04_sha512_length; observed for ring)",
+ "PkLen": "PkLen: Ed25519 public keys are 32 bytes",
+ "SigLen": "SigLen: Ed25519 signatures are 64 bytes",
+ "SigCorrect": "SigCorrect: verify (pk s) m (sign s m) = true (Ed25519 correctness; the primitive itself is abstract)",
+ "PointOk": "PointOk: a public key derived from a seed is a valid curve point",
+}
+ASSUME = {
+ "C01": ["HashLen", "collision resistance is NOT assumed: C01_no_replay concludes `... or a Collision`", "nonce freshness = ring::rand::SystemRandom (not a theorem)"],
+ "C02": ["HashLen", "PkLen", "SigLen", "SigCorrect", "the fault RATE is a property of SmallRng/Bernoulli: measured, not proved"],
+ "C03": ["HashLen", "PkLen", "SigLen", "SigCorrect", "PointOk", "chrono formatting is checked by parsing the output back, not modelled"],
+ "C04": ["HashLen", "collision resistance is NOT assumed (binding concludes `... or a Collision`)"],
+ "C05": ["inputs shorter than 2^32 bytes (where `as u32` is the identity)"],
+ "C06": ["a real stack overflow can only be observed, not proved absent (display recursion is proved bounded by MAX_DISPLAY_DEPTH)"],
+ "C07": ["HashLen", "PkLen", "SigLen", "batch_size <= 64 (is_valid_config's range)"],
+ "C08": ["HashLen", "PkLen", "SigLen", "the receive queue of one process_events call is a finite list; mio/OS errors other than WouldBlock are outside the model"],
+ "C09": ["HashLen", "PkLen", "SigLen", "source address = socket identity; loopback preserves send order", "send failures are an explicit input (send_fails)"],
+ "C10": ["Ed25519 and SHA-512 abstract: equality with RFC 8032 is a correspondence observation", "`never verifies under the other context` needs a signature-binding idealisation: observed, not proved"],
+ "C11": ["secs < 2^44, nanos < 10^9 (stated guards)", "SystemTime::now() is the clock; observed by bracketing and by the concurrent-sender race"],
+ "C12": ["as C07"],
+ "C13": ["Ed25519 abstract (any one-shot primitive); dalek's one-shot API cross-checked against a pure-Python RFC 8032 transcription"],
+ "C14": ["AEAD and KMS provider abstract (round-trip hypotheses AeadCorrect / KmsCorrect as premises)", "tamper rejection and secrecy are properties of AES-256-GCM / the provider: measured, not proved"],
+ "C15": ["Linux bind / accept / edge-triggered epoll semantics as written into Model/Process.v", "thread creation, scheduling, timing observed"],
+ "C16": ["the model enters at the integer written / at the getters' values (YAML and decimal lexing observed)"],
+ "C17": ["HashLen", "PkLen", "SigLen", "counters unbounded N in the model (< 2^32 events per address per interval)", "first_seen timestamps, CSV/zstd persistence not modelled"],
+ "C18": ["HashLen", "PkLen", "SigLen", "the kernel delivers each datagram to exactly one SO_REUSEPORT socket; workers share no mutable state but the stats queue (observed)"],
+ "C19": ["HashLen", "PkLen", "SigLen", "signal delivery, ctrlc thread, joins and wall-clock bounds observed", "KNOWN FINDING flood-shutdown (known_findings.json)"],
+ "C20": ["that compiled code has no emission path outside the scanned call sites, and that public keys / signatures do not reveal the seed, are not theorems"],
+}
+
+
+def assumptions_for(pid):
+    return [HYP.get(a, a) for a in ASSUME.get(pid, [])]
+
+
 def default_trusted():
     return [
         "Coq 8.16.1 kernel (coqc); vm_compute used in finite lemmas; no native_compute",
         "no axioms: every property theorem prints 'Closed under the global context' (audited each run)",
-        "model is hand-written Gallina mirroring the Rust; tie = Gen/Tables.v + Gen/Sites.v regenerated from /repo each run, and differential execution of the extracted model vs the real library (harness/)",
+        "model is hand-written Gallina mirroring the Rust; tie = Gen/Tables.v (API reflection) + Gen/Sites.v (log / panic sites and the integer literals of every modelled function, lexical scan) regenerated from /repo each run and re-proved against, and differential execution of the extracted model vs the real library (harness/) and binaries",
         "extraction to OCaml with ExtrOcamlBasic only; driver byte<->int glue self-tested",
         "Rust harness glue, OCaml driver, Python orchestrator and generators (generator quality bounds the correspondence)",
     ]
